@@ -373,7 +373,9 @@ class FeArray(np.ndarray):
         _parent = getattr(np.ndarray, _name)
 
         def _reducer(self, *args, **kwargs):
-            res = _parent(self, *args, **kwargs)
+            # on the plain view: numpy computes some reductions (std, var) by arithmetic on the array it is given,
+            # which would come back through __array_ufunc__ and be aligned as if the partial results were constants
+            res = _parent(self.view(np.ndarray), *args, **kwargs)
             axis = kwargs.get("axis", args[0] if args else None)
             if _KeepsFeAxes(axis, self.ndim) and getattr(res, "ndim", 0) >= 2:
                 return res.view(FeArray)
